@@ -27,9 +27,13 @@ pub const DATA: u64 = 0x2000_0000;
 pub const DATA_LEN: usize = 0x4000;
 pub const RO: u64 = 0x3000_0000;
 pub const RO_LEN: usize = 0x1000;
-pub const STACK: u64 = 0x7000_0000;
+/// the stack region straddles a 64 KiB (and 256 MiB) boundary, the high region a 4 GiB boundary: carries out of
+/// the low 16 / 32 bits of an address or of RSP are part of ordinary address arithmetic there
+pub const STACK: u64 = 0x6fff_e000;
+pub const STACK_BOUNDARY: u64 = 0x7000_0000;
 pub const STACK_LEN: usize = 0x4000;
-pub const HIGH: u64 = 0x6000_0000_0000;
+pub const HIGH: u64 = 0x5fff_ffff_f000;
+pub const HIGH_BOUNDARY: u64 = 0x6000_0000_0000;
 pub const HIGH_LEN: usize = 0x2000;
 
 pub const REGIONS: [Region; 5] = [
